@@ -24,6 +24,10 @@ def step (line : String) : String :=
   | "c04f" :: a => Drv.C01.opFollow a
   | "c04a" :: a => Drv.C01.opAssemble a
   | "c15" :: a => Drv.C15.op a
+  | "c11n" :: a => Drv.C11.opNorm a
+  | "c11i" :: a => Drv.C11.opInsert a
+  | "c11w" :: a => Drv.C11.opWall a
+  | "c11p" :: a => Drv.C11.opMask a
   | "c05hy" :: a => Drv.C05.opHy a
   | "c05pd" :: a => Drv.C05.opPD a
   | "c06tz" :: a => Drv.C05.opTZ a
